@@ -52,7 +52,7 @@ def draw_env(rng, tool, force_stdin=False):
         e = Env(ik, ok, rng.choice(CHUNK_KINDS), rng.choice(CHUNK_KINDS),
                 rng.getrandbits(32), rng.getrandbits(32), pre,
                 unbuf=(ok != "path" and rng.random() < 0.1),
-                names=rng.choice((0, 0, 0, 1, 2, 3, 4)),
+                names=rng.choice((0, 0, 0, 0, 1, 2, 3, 4, 5, 6, 7)),
                 spell=rng.getrandbits(30) if rng.random() < 0.3 else 0,
                 late_opts=rng.random() < 0.15,
                 inplace=(tool == "veftopng" and rng.random() < 0.2),
@@ -137,6 +137,14 @@ def c19_case(seed, index):
             case = formats.GEN[fmt](wr, small=small)
     fr = st.rng("faults")
     plan, kinds = faults.gen_plan(fr, case)
+    if case.fmt == "max" and "-r" not in case.opts and fr.random() < 0.08:
+        # a coordinated pair: the length field changed AND the data really made that long, the
+        # postamble following it (a "fractional page" the tool does not support)
+        hdr = case.skip
+        size = case.data[hdr + 1] * 256 + case.data[hdr + 2]
+        d = fr.choice((1, -1, 3, -16, 17, fr.randint(-31, 31) or 5))
+        if size + d > 0 and len(case.data) >= hdr + 10 + max(0, -d):
+            plan = [{"kind": "relength", "hdr": hdr, "delta": d}] + plan[:1]
     if fr.random() < 0.03:
         # wrong format altogether: a perfectly valid file, of another format
         other = fr.choice([f for f in formats.FORMATS if formats.TOOL_OF[f] != case.tool])
@@ -561,6 +569,11 @@ def real_cli(tool, opts, data, env, tmpdir):
         os.makedirs(os.path.dirname(p_), exist_ok=True)
         if os.path.exists(p_):
             os.remove(p_)
+    from .decsim import NAME_STYLES, SIBLINGS
+    for sib in SIBLINGS.get(env.names % len(NAME_STYLES), ()):
+        os.makedirs(os.path.dirname(real(sib)), exist_ok=True)
+        with open(real(sib), "wb") as f:
+            f.write(bytes(len(data)))
     argv = spell_argv(tool, opts, env.spell)
     pos = []
     stdin = None
@@ -587,9 +600,9 @@ def real_cli(tool, opts, data, env, tmpdir):
     elif env.in_kind in ("redir", "redir_off"):
         import random as _r0
         k = 0 if env.in_kind == "redir" else 1 + env.in_seed % 97
-        with open(inp + ".redir", "wb") as f:
+        with open(os.path.join(tmpdir, "redir.bin"), "wb") as f:
             f.write(_r0.Random(env.in_seed).randbytes(k) + data)
-        stdin = open(inp + ".redir", "rb")
+        stdin = open(os.path.join(tmpdir, "redir.bin"), "rb")
         stdin.seek(k)
         pos.append("-")
     else:
@@ -618,7 +631,7 @@ def real_cli(tool, opts, data, env, tmpdir):
             p = subprocess.run([PYTHON] + pyopt + ["-m", "coco." + tool] + argv, stdin=stdin,
                                capture_output=True, env=envv, cwd=os.path.join(tmpdir, "cwd"), timeout=120)
             stdin.close()
-            os.remove(inp + ".redir")
+            os.remove(os.path.join(tmpdir, "redir.bin"))
         else:
             p = subprocess.run([PYTHON] + pyopt + ["-m", "coco." + tool] + argv,
                                input=stdin if stdin is not None else b"",
